@@ -328,6 +328,7 @@ int main(int argc, char** argv)
     for (int64_t c = from; c < to; ++c)
     {
         emit(J().kv("t", "case_begin").kv("case", c).str());
+        arm_case_watchdog(900);
         set_ctx(c, 0, "concurrent_const_use", "shared", "C19", fmt("threads=%d,rounds=%d", threads, rounds).c_str());
         Engine<Cfg>::run_case(seed, c, threads, rounds);
         uint64_t pairs = 0;
